@@ -232,10 +232,11 @@ where
         // 各流轮流按令牌桶算法发放的tokens来整理数据去发送
         const DEFAULT_TOKENS: usize = 4096;
         let (sid, remain_tokens, fresh_bytes) = match &output.cursor {
-            // rev([..=sid]) + rev([sid+1..])
+            // the stream at the cursor has used up its tokens: it goes to the end of the round
+            // rev([..sid]) + rev([sid..])
             Some((sid, tokens)) if *tokens == 0 => try_load_data_into_once(
-                (output.outgoings.range(..=sid).rev())
-                    .chain(output.outgoings.range((Excluded(sid), Unbounded)).rev())
+                (output.outgoings.range(..sid).rev())
+                    .chain(output.outgoings.range(sid..).rev())
                     .map(|(sid, outgoing)| (*sid, outgoing, DEFAULT_TOKENS))
                     .filter(|(sid, ..)| stream_allowed(sid)),
                 packet,
